@@ -386,3 +386,82 @@ class FitFailureStatus:
             return (ok, "scenario %s: status %r" % (inputs["scenario"], st))
         except Exception as e:
             return (False, "scenario %s raised %s: %s" % (inputs["scenario"], type(e).__name__, str(e)[:200]))
+
+
+# ---------------------------------------------------------------------------
+# generated ill-posed fits: the retry protocol (status -1 = breakpoints masked, fit again) always settles, never raises
+# ---------------------------------------------------------------------------
+from pyvc.numeric import NumericJob as _NumericJob
+
+
+@register("C09")
+class FitRetryProtocol(_NumericJob):
+    name = "fit_retry_protocol"
+    prop = "C09"
+    target = "pydl.pydlutils.bspline:bspline.fit, bspline.maskpoints, bspline.action, iterfit"
+    bound = ("orders 2..5, 2..7 breakpoints (incl. the minimal single-segment spline), 5..40 points, weight patterns all zero / one edge only / a few good / "
+             "random zeros / one interval empty; fit repeated while it answers -1 (at most 60 times); the same data through iterfit")
+    KINDS = ("every_attempt_returns_an_integer_status", "retries_settle_on_success_or_failure", "success_means_finite_fit_and_solved_normal_equations",
+             "iterfit_reports_instead_of_raising")
+    NQ, NT = 150, 1500
+
+    def _cases(self, rng, n):
+        for rep in range(n):
+            nord, nbk, npts = rng.randint(2, 5), rng.randint(2, 7), rng.randint(5, 40)
+            x = np.sort(np.array([rng.uniform(0, 10) for _ in range(npts)]))
+            y = np.sin(x) + np.array([rng.gauss(0, 0.05) for _ in range(npts)])
+            pat = rng.choice(["all_zero", "left_edge", "right_edge", "few_good", "random_zeros", "hole", "all_good"])
+            w = np.ones(npts)
+            if pat == "all_zero":
+                w[:] = 0.0
+            elif pat == "left_edge":
+                w[x > x[0] + rng.uniform(0.2, 2.0)] = 0.0
+            elif pat == "right_edge":
+                w[x < x[-1] - rng.uniform(0.2, 2.0)] = 0.0
+            elif pat == "few_good":
+                w[:] = 0.0
+                for k in rng.sample(range(npts), rng.randint(1, 3)):
+                    w[k] = 10.0
+            elif pat == "random_zeros":
+                w[np.array([rng.random() < 0.5 for _ in range(npts)])] = 0.0
+            elif pat == "hole":
+                a = rng.uniform(1, 6)
+                w[(x > a) & (x < a + rng.uniform(1, 4))] = 0.0
+            yield dict(x=x, y=y, w=w, nord=nord, nbk=nbk, inp=dict(rep=rep, nord=nord, nbkpts=nbk, npoints=npts, weights=pat))
+
+    def _check(self, c):
+        from pydl.pydlutils.bspline import bspline, iterfit
+        x, y, w = c["x"], c["y"], c["w"]
+        bad = []
+        with warnings.catch_warnings():
+            warnings.simplefilter("ignore")
+            s = bspline(x, nord=c["nord"], nbkpts=c["nbk"])
+            statuses = []
+            st, yfit = None, None
+            for attempt in range(60):
+                st, yfit = s.fit(x, y, w)
+                statuses.append(st)
+                if not isinstance(st, (int, np.integer)):
+                    return [("every_attempt_returns_an_integer_status", "attempt %d returned %r" % (attempt + 1, st))]
+                if st != -1:
+                    break
+            if st == -1:
+                bad.append(("retries_settle_on_success_or_failure", "still -1 after %d attempts" % len(statuses)))
+            elif st == 0:
+                if not (np.all(np.isfinite(yfit)) and np.all(np.isfinite(s.coeff))):
+                    bad.append(("success_means_finite_fit_and_solved_normal_equations", "status 0 with a non-finite fit (statuses %s)" % statuses))
+                else:
+                    # the stored coefficients reproduce yfit through value() at the good points
+                    yv, mk = s.value(x)
+                    if not np.allclose(yv[mk], yfit[mk], rtol=1e-8, atol=1e-8):
+                        bad.append(("success_means_finite_fit_and_solved_normal_equations", "yfit differs from value() of the stored coefficients by %g" % np.abs(yv[mk] - yfit[mk]).max()))
+            # the driver that performs the retries itself
+            try:
+                sset, outmask = iterfit(x, y, invvar=w, nord=c["nord"], nbkpts=c["nbk"], maxiter=5)
+                if outmask.shape != x.shape:
+                    bad.append(("iterfit_reports_instead_of_raising", "mask shape %s" % (outmask.shape,)))
+            except Exception as e:
+                # iterfit's own, explicit refusal of input without a single valid point is a related, deliberate exception
+                if not (isinstance(e, ValueError) and "No valid data points" in str(e) and not (w > 0).any()):
+                    bad.append(("iterfit_reports_instead_of_raising", "iterfit raised %s: %s" % (type(e).__name__, str(e)[:120])))
+        return bad
